@@ -106,3 +106,107 @@ def read_values(path, items, recs, lookups):
         out.append(r)
     db.disconnect()
     return out
+
+
+# ------------------------------------------------------------------------------------------------ tracked Json / array values across objects
+
+def plain(v):
+    import json
+    v = untrack(v)
+    return json.loads(json.dumps(v))
+
+
+def make_hist_db(path, create):
+    from pony import orm
+    db = orm.Database('sqlite', path, create_db=create)
+    class H(db.Entity):
+        name = orm.Required(str)
+        j = orm.Optional(orm.Json)
+        j2 = orm.Optional(orm.Json)
+        ia = orm.Optional(orm.IntArray)
+    db.generate_mapping(create_tables=create)
+    return db, H
+
+
+HISTORIES = ['whole', 'whole-required-edit-after-commit', 'nested-part', 'own-value', 'other-attribute', 'array-whole', 'create-with-foreign', 'whole-then-edit-source']
+
+
+def run_history(path, kind):
+    """Session 1 stores two rows; session 2 loads both, assigns a tracked value of `a` to `b` (whole value / nested part / ...),
+    flushes, edits b's value in place, records what the program sees after the flush, commits; a fresh Database object reads the rows.
+    -> list of (label, seen after flush, read by a fresh session)."""
+    from pony import orm
+    if os.path.exists(path): os.remove(path)
+    db, H = make_hist_db(path, True)
+    with orm.db_session:
+        H(name='a', j={'n': 1, 'tags': ['x'], 'opts': {'a': True}}, j2={'k': [1, 2]}, ia=[1, 2, 3])
+        H(name='b', j={'n': 0, 'tags': [], 'opts': {}}, j2={'k': []}, ia=[])
+    seen = {}
+    with orm.db_session:
+        a, b = H.get(name='a'), H.get(name='b')
+        a.j, b.j, a.ia, b.ia, a.j2      # load
+        if kind == 'whole':
+            b.j = a.j; orm.flush()
+            b.j['n'] = 2; b.j['tags'].append('y'); b.j['opts']['b'] = False
+        elif kind == 'whole-required-edit-after-commit':
+            b.j = a.j; orm.commit()
+            b.j['n'] = 3
+        elif kind == 'nested-part':
+            b.j = a.j['opts']; orm.flush()
+            b.j['z'] = 1
+        elif kind == 'own-value':
+            b.j = b.j; orm.flush()
+            b.j['q'] = 1
+        elif kind == 'other-attribute':
+            b.j = a.j2; orm.flush()
+            b.j['k'].append(3)
+        elif kind == 'array-whole':
+            b.ia = a.ia; orm.flush()
+            b.ia.append(9)
+        elif kind == 'create-with-foreign':
+            c = H(name='c', j=a.j); orm.flush()
+            c.j['n'] = 5
+        elif kind == 'whole-then-edit-source':
+            b.j = a.j; orm.flush()
+            a.j['n'] = 7
+        orm.flush()
+        for o in H.select():
+            seen[o.name] = {'j': plain(o.j), 'j2': plain(o.j2), 'ia': plain(o.ia)}
+        orm.commit()
+    db.disconnect()
+    db2, H2 = make_hist_db(path, False)
+    out = []
+    with orm.db_session:
+        for o in H2.select():
+            got = {'j': plain(o.j), 'j2': plain(o.j2), 'ia': plain(o.ia)}
+            for k in ('j', 'j2', 'ia'):
+                out.append(('%s.%s' % (o.name, k), seen[o.name][k], got[k]))
+    db2.disconnect()
+    try: os.remove(path)
+    except OSError: pass
+    return out
+
+
+def tracked_validate_cases():
+    """Real JsonConverter.validate / ArrayConverter.validate on values tracked by this / another object / another attribute.
+    -> list of (conv kind, case label, target ('b'), value description (owner, attr) or None, kept as is?, (owner, attr) notified by the result)."""
+    from pony import orm
+    db, H = make_hist_db(':memory:', True)
+    out = []
+    with orm.db_session:
+        a = H(name='a', j={'n': 1, 'opts': {'a': True}}, j2={'k': [1]}, ia=[1, 2])
+        b = H(name='b', j={'n': 0, 'opts': {}}, j2={'k': []}, ia=[5])
+        ids = {id(a): 1, id(b): 2}
+        attrs = {H.j: 1, H.j2: 2, H.ia: 3}
+        def who(v):
+            return (ids[id(v.obj_ref())], attrs[v.attr]) if hasattr(v, 'obj_ref') else None
+        jc, ac = H.j.converters[0], H.ia.converters[0]
+        for label, v in (('plain', {'x': 1}), ('own', b.j), ('other-object', a.j), ('other-object-nested', a.j['opts']), ('own-nested', b.j['opts']),
+                         ('other-attribute-same-object', b.j2), ('other-attribute-other-object', a.j2)):
+            r = jc.validate(v, b)
+            out.append(('json', label, 2, 1, who(v), r is v, who(r)))
+        for label, v in (('plain', [7]), ('own', b.ia), ('other-object', a.ia)):
+            r = ac.validate(v, b)
+            out.append(('array', label, 2, 3, who(v), r is v, who(r)))
+        orm.rollback()
+    return out
